@@ -30,20 +30,29 @@ VARIABLES tid,      \* index of the trace being consumed
           mem,      \* the allocation
           wins,     \* << window 1, window 2 >>, each [o, l]
           stack,    \* recorded observation for every prefix of mem (PrefixMonotone, arr events)
-          nbad,     \* number of mismatching events found so far
+          pmem,     \* the allocation before the last consumed event
+          parent,   \* arr events: the recorded observation of the prefix the last buffer extends
           nev       \* number of events consumed
-vars == <<tid, i, mem, wins, stack, nbad, nev>>
+vars == <<tid, i, mem, wins, stack, pmem, parent, nev>>
+
+(* The actions below only move the recorded behaviour into the state (cheap).  Everything expensive --
+   evaluating the reference semantics and comparing -- happens in the invariant Checked, which TLC
+   evaluates exactly once per reached state and with LET-caching (measured: an order of magnitude
+   faster than doing the same inside the next-state relation).  Checked is always TRUE; it PRINTS one
+   JSON line per failing clause, and register 1 counts them. *)
 
 MaxReport == 60
 
 Tr == Traces[tid]
-Ev == Traces[tid].ev[i]
+Ev == Traces[tid].ev[i]          \* the event about to be consumed (actions)
+Lv == Traces[tid].ev[i - 1]      \* the event just consumed (invariant)
 
 Report(clause, exp, got) ==
-  IF nbad < MaxReport
-  THEN PrintT(ToJson([tid |-> tid, ev |-> i, t |-> Tr.t, ps |-> Tr.ps, clause |-> clause,
-                      exp |-> exp, got |-> got, e |-> Ev.e]))
-  ELSE TRUE
+  /\ IF TLCGet(1) < MaxReport
+     THEN PrintT(ToJson([tid |-> tid, ev |-> i - 1, t |-> Tr.t, ps |-> Tr.ps, clause |-> clause,
+                         exp |-> exp, got |-> got, e |-> Lv.e]))
+     ELSE TRUE
+  /\ TLCSet(1, TLCGet(1) + 1)
 
 EntryMatches(e, g) == e.k = g[1] /\ e.t = g[2] /\ (e.v = Wild \/ e.v = g[3])
 SameShape(exp, got) == Len(exp) = Len(got) /\ \A j \in 1..Len(exp) : EntryMatches(exp[j], got[j])
@@ -80,83 +89,68 @@ Win(k) == wins[k]
 Other(k) == 3 - k
 ReplaceWindow(m, w, bytes) == SubSeq(m, 1, w.o) \o bytes \o SubSeq(m, w.o + w.l + 1, Len(m))
 
-Init == tid = 1 /\ i = 1 /\ mem = <<>> /\ wins = <<WholeWin(<<>>), WholeWin(<<>>)>> /\ stack = <<>> /\ nbad = 0 /\ nev = 0
+Init == /\ tid = 1 /\ i = 1 /\ mem = <<>> /\ wins = <<WholeWin(<<>>), WholeWin(<<>>)>> /\ stack = <<>>
+        /\ pmem = <<>> /\ parent = <<>> /\ nev = 0
+        /\ TLCSet(1, 0)
 
 HaveEvent == tid <= Len(Traces) /\ i <= Len(Traces[tid].ev)
-Step == i' = i + 1 /\ nev' = nev + 1 /\ tid' = tid
 
-Arrive ==
-  /\ HaveEvent /\ Ev.e = "arr"
-  /\ LET nb == IF Ev.n < 0 THEN <<>> ELSE SubSeq(mem, 1, Ev.n) \o <<Ev.b>>
-         exp == Obs(Tr.t, Tr.ps, nb)
-         got == RecObs(Ev.o)
-         bad == ObsBad(exp, Ev.o)
-         parent == IF Ev.n < 0 THEN <<>> ELSE stack[Ev.n + 1]
-         nm == NonMono(parent, got)
-     IN /\ mem' = nb /\ wins' = <<WholeWin(nb), WholeWin(nb)>>
-        \* a recording that already disagrees with the reference makes no claims for its extensions
-        /\ stack' = (IF Ev.n < 0 THEN <<>> ELSE SubSeq(stack, 1, Ev.n + 1)) \o <<IF bad THEN <<>> ELSE got>>
-        /\ IF bad THEN ObsReport(exp, Ev.o) ELSE TRUE
-        /\ IF nm # {} THEN Report("PrefixMonotone", {parent[j] : j \in nm}, <<>>) ELSE TRUE
-        /\ nbad' = nbad + B01(bad) + B01(nm # {})
-  /\ Step
+(* one action: move the next recorded event into the state *)
+Consume ==
+  /\ HaveEvent
+  /\ pmem' = mem
+  /\ CASE Ev.e = "arr" ->
+            LET nb == IF Ev.n < 0 THEN <<>> ELSE SubSeq(mem, 1, Ev.n) \o <<Ev.b>> IN
+            /\ mem' = nb /\ wins' = <<WholeWin(nb), WholeWin(nb)>>
+            /\ parent' = IF Ev.n < 0 THEN <<>> ELSE stack[Ev.n + 1]
+            /\ stack' = (IF Ev.n < 0 THEN <<>> ELSE SubSeq(stack, 1, Ev.n + 1)) \o <<RecObs(Ev.o)>>
+       [] Ev.e = "mem" ->
+            /\ mem' = Ev.bytes /\ wins' = <<[o |-> Ev.a[1], l |-> Ev.a[2]], [o |-> Ev.b[1], l |-> Ev.b[2]]>>
+            /\ stack' = <<>> /\ parent' = <<>>
+       [] Ev.e \in {"wr", "cp"} -> mem' = Ev.after /\ UNCHANGED <<wins, stack, parent>>
+       [] OTHER -> UNCHANGED <<mem, wins, stack, parent>>
+  /\ i' = i + 1 /\ nev' = nev + 1 /\ tid' = tid
 
-SetMem ==
-  /\ HaveEvent /\ Ev.e = "mem"
-  /\ LET w1 == [o |-> Ev.a[1], l |-> Ev.a[2]]
-         w2 == [o |-> Ev.b[1], l |-> Ev.b[2]]
-         exp == Obs(Tr.t, Tr.ps, Window(Ev.bytes, w1))
-         bad == ObsBad(exp, Ev.o)
-     IN /\ mem' = Ev.bytes /\ wins' = <<w1, w2>> /\ stack' = <<>>
-        /\ IF bad THEN ObsReport(exp, Ev.o) ELSE TRUE
-        /\ nbad' = nbad + B01(bad)
-  /\ Step
+CheckArrive ==
+  LET exp == Obs(Tr.t, Tr.ps, mem)
+      got == RecObs(Lv.o)
+      nm == NonMono(parent, got)
+  IN /\ (IF ObsBad(exp, Lv.o) THEN ObsReport(exp, Lv.o) ELSE TRUE)
+     /\ (IF nm # {} THEN Report("PrefixMonotone", {parent[j] : j \in nm}, <<>>) ELSE TRUE)
 
-Write ==
-  /\ HaveEvent /\ Ev.e = "wr"
-  /\ LET w == Win(Ev.win)
-         r == WriteResult(Tr.t, Tr.ps, Window(mem, w), Ev.path, Ev.x)
-         expMem == ReplaceWindow(mem, w, r.buf)
-         badRet == Ev.could # B01(r.could) \/ Ev.tried # B01(r.tried)
-         badMem == Ev.after # expMem                    \* WriteFrame: nothing outside the field changes; a failed write changes nothing
-         expObs == Obs(Tr.t, Tr.ps, Window(Ev.after, w))
-         badObs == ObsBad(expObs, Ev.o)
-     IN /\ mem' = Ev.after /\ UNCHANGED <<wins, stack>>
-        /\ IF badRet THEN Report("WriteVerdict", [could |-> B01(r.could), tried |-> B01(r.tried)], [could |-> Ev.could, tried |-> Ev.tried]) ELSE TRUE
-        /\ IF badMem THEN Report("WriteFrame", expMem, Ev.after) ELSE TRUE
-        /\ IF badObs THEN ObsReport(expObs, Ev.o) ELSE TRUE
-        /\ nbad' = nbad + B01(badRet) + B01(badMem) + B01(badObs)
-  /\ Step
+CheckSetMem ==
+  LET exp == Obs(Tr.t, Tr.ps, Window(mem, Win(1))) IN
+  IF ObsBad(exp, Lv.o) THEN ObsReport(exp, Lv.o) ELSE TRUE
 
-EqualsQuery ==
-  /\ HaveEvent /\ Ev.e = "eq"
-  /\ LET a == TopView(Tr.t, Tr.ps, Window(mem, Win(1)))
-         b == TopView(Tr.t, Tr.ps, Window(mem, Win(2)))
-         enabled == VOk(a) /\ VOk(b)            \* the reference only defines Equals on two Ok views
-         e1 == IF enabled THEN B01(VEquals(a, b)) ELSE 0
-         e2 == IF enabled THEN B01(VEquals(b, a)) ELSE 0
-         bad == (Ev.skipped = 1) # ~enabled \/ (enabled /\ (Ev.ab # e1 \/ Ev.ba # e2))
-     IN /\ IF bad THEN Report("EqualsIsLogical", [enabled |-> enabled, ab |-> e1, ba |-> e2], [skipped |-> Ev.skipped, ab |-> Ev.ab, ba |-> Ev.ba]) ELSE TRUE
-        /\ nbad' = nbad + B01(bad)
-  /\ UNCHANGED <<mem, wins, stack>>
-  /\ Step
+CheckWrite ==
+  LET w == Win(Lv.win)
+      r == WriteResult(Tr.t, Tr.ps, Window(pmem, w), Lv.path, Lv.x)
+      expMem == ReplaceWindow(pmem, w, r.buf)
+      expObs == Obs(Tr.t, Tr.ps, Window(Lv.after, w))
+  IN /\ (IF Lv.could # B01(r.could) \/ Lv.tried # B01(r.tried)
+         THEN Report("WriteVerdict", [could |-> B01(r.could), tried |-> B01(r.tried)], [could |-> Lv.could, tried |-> Lv.tried]) ELSE TRUE)
+     \* WriteFrame: nothing outside the field changes; a failed write changes nothing
+     /\ (IF Lv.after # expMem THEN Report("WriteFrame", expMem, Lv.after) ELSE TRUE)
+     /\ (IF ObsBad(expObs, Lv.o) THEN ObsReport(expObs, Lv.o) ELSE TRUE)
 
-Copy ==
-  /\ HaveEvent /\ Ev.e = "cp"
-  /\ LET dst == Win(Ev.dst)
-         src == Win(Other(Ev.dst))
-         en == CopyEnabled(Tr.t, Tr.ps, mem, dst, src)
-         expMem == CopyResult(Tr.t, Tr.ps, mem, dst, src)
-         badRet == Ev.ok # B01(en)
-         badMem == Ev.after # expMem
-         expObs == Obs(Tr.t, Tr.ps, Window(Ev.after, dst))
-         badObs == ObsBad(expObs, Ev.o)
-     IN /\ mem' = Ev.after /\ UNCHANGED <<wins, stack>>
-        /\ IF badRet THEN Report("CopyVerdict", B01(en), Ev.ok) ELSE TRUE
-        /\ IF badMem THEN Report("CopyPost", expMem, Ev.after) ELSE TRUE
-        /\ IF badObs THEN ObsReport(expObs, Ev.o) ELSE TRUE
-        /\ nbad' = nbad + B01(badRet) + B01(badMem) + B01(badObs)
-  /\ Step
+CheckEquals ==
+  LET a == TopView(Tr.t, Tr.ps, Window(mem, Win(1)))
+      b == TopView(Tr.t, Tr.ps, Window(mem, Win(2)))
+      enabled == VOk(a) /\ VOk(b)            \* the reference only defines Equals on two Ok views
+      e1 == IF enabled THEN B01(VEquals(a, b)) ELSE 0
+      e2 == IF enabled THEN B01(VEquals(b, a)) ELSE 0
+      bad == (Lv.skipped = 1) # ~enabled \/ (enabled /\ (Lv.ab # e1 \/ Lv.ba # e2))
+  IN IF bad THEN Report("EqualsIsLogical", [enabled |-> enabled, ab |-> e1, ba |-> e2], [skipped |-> Lv.skipped, ab |-> Lv.ab, ba |-> Lv.ba]) ELSE TRUE
+
+CheckCopy ==
+  LET dst == Win(Lv.dst)
+      src == Win(Other(Lv.dst))
+      en == CopyEnabled(Tr.t, Tr.ps, pmem, dst, src)
+      expMem == CopyResult(Tr.t, Tr.ps, pmem, dst, src)
+      expObs == Obs(Tr.t, Tr.ps, Window(Lv.after, dst))
+  IN /\ (IF Lv.ok # B01(en) THEN Report("CopyVerdict", B01(en), Lv.ok) ELSE TRUE)
+     /\ (IF Lv.after # expMem THEN Report("CopyPost", expMem, Lv.after) ELSE TRUE)
+     /\ (IF ObsBad(expObs, Lv.o) THEN ObsReport(expObs, Lv.o) ELSE TRUE)
 
 ---------------------------------------------------------------------------
 (* Text round trip (C06).  tree = << [n: name, v: value] >>; value = [k:"num", c: chars] | [k:"id", s: text]
@@ -223,36 +217,43 @@ TreeBad(v, tree, opt) ==
            THEN {"EmittedValueIsFieldValue"} ELSE {})
 TreeOk(v, tree, opt) == TreeBad(v, tree, opt) = {}
 
-TextRT ==
-  /\ HaveEvent /\ Ev.e = "text"
-  /\ LET w == Win(1)
-         v == TopView(Tr.t, Tr.ps, Window(mem, w))
-         enabled == VOk(v)
-         vz == TopView(Tr.t, Tr.ps, Ev.z)
-         bad1 == IF ~enabled THEN (IF Ev.skipped = 1 THEN {} ELSE {"TextOnlyWhenOk"})
-                 ELSE IF Ev.skipped = 1 THEN {"TextOnlyWhenOk"} ELSE TreeBad(v, Ev.tree, Ev.opt)
-         rt == IF enabled /\ Ev.skipped = 0
-               THEN (IF Ev.upd # 1 THEN {"UpdateFromTextSucceeds"} ELSE {}) \cup
-                    (IF \E j \in 1..Len(Ev.tree) : Ev.tree[j].n \in FieldNames(v) /\
-                          ObsField(v, FieldNamed(v.t, Ev.tree[j].n), "") # ObsField(vz, FieldNamed(v.t, Ev.tree[j].n), "")
-                     THEN {"EmittedFieldsReadBackEqual"} ELSE {})
-               ELSE {}
-         bad == bad1 \cup rt
-     IN /\ IF bad # {} THEN Report("TextRoundTrip", bad, [skipped |-> Ev.skipped, upd |-> Ev.upd, opt |-> Ev.opt]) ELSE TRUE
-        /\ nbad' = nbad + B01(bad # {})
-  /\ UNCHANGED <<mem, wins, stack>>
-  /\ Step
+CheckText ==
+  LET w == Win(1)
+      v == TopView(Tr.t, Tr.ps, Window(mem, w))
+      enabled == VOk(v)
+      vz == TopView(Tr.t, Tr.ps, Lv.z)
+      bad1 == IF ~enabled THEN (IF Lv.skipped = 1 THEN {} ELSE {"TextOnlyWhenOk"})
+              ELSE IF Lv.skipped = 1 THEN {"TextOnlyWhenOk"} ELSE TreeBad(v, Lv.tree, Lv.opt)
+      rt == IF enabled /\ Lv.skipped = 0
+            THEN (IF Lv.upd # 1 THEN {"UpdateFromTextSucceeds"} ELSE {}) \cup
+                 (IF \E j \in 1..Len(Lv.tree) : Lv.tree[j].n \in FieldNames(v) /\
+                       ObsField(v, FieldNamed(v.t, Lv.tree[j].n), "") # ObsField(vz, FieldNamed(v.t, Lv.tree[j].n), "")
+                  THEN {"EmittedFieldsReadBackEqual"} ELSE {})
+            ELSE {}
+      bad == bad1 \cup rt
+  IN IF bad # {} THEN Report("TextRoundTrip", bad, [skipped |-> Lv.skipped, upd |-> Lv.upd, opt |-> Lv.opt]) ELSE TRUE
+
+(* the invariant: judge the event that produced this state *)
+Checked ==
+  IF i = 1 \/ tid > Len(Traces) THEN TRUE
+  ELSE CASE Lv.e = "arr" -> CheckArrive
+         [] Lv.e = "mem" -> CheckSetMem
+         [] Lv.e = "wr" -> CheckWrite
+         [] Lv.e = "eq" -> CheckEquals
+         [] Lv.e = "cp" -> CheckCopy
+         [] Lv.e = "text" -> CheckText
 
 NextTrace ==
   /\ tid <= Len(Traces) /\ i > Len(Traces[tid].ev)
   /\ tid' = tid + 1 /\ i' = 1 /\ mem' = <<>> /\ wins' = <<WholeWin(<<>>), WholeWin(<<>>)>> /\ stack' = <<>>
-  /\ UNCHANGED <<nbad, nev>>
+  /\ pmem' = <<>> /\ parent' = <<>>
+  /\ UNCHANGED nev
 
 Done ==
   /\ tid = Len(Traces) + 1 /\ i = 1
-  /\ PrintT(ToJson([summary |-> TRUE, traces |-> Len(Traces), events |-> nev, bad |-> nbad]))
-  /\ tid' = tid + 1 /\ UNCHANGED <<i, mem, wins, stack, nbad, nev>>
+  /\ PrintT(ToJson([summary |-> TRUE, traces |-> Len(Traces), events |-> nev, bad |-> TLCGet(1)]))
+  /\ tid' = tid + 1 /\ UNCHANGED <<i, mem, wins, stack, pmem, parent, nev>>
 
-Next == Arrive \/ SetMem \/ Write \/ EqualsQuery \/ Copy \/ TextRT \/ NextTrace \/ Done
+Next == Consume \/ NextTrace \/ Done
 Spec == Init /\ [][Next]_vars
 =============================================================================
